@@ -94,6 +94,8 @@ SPECS = {
     "C06": dict(modules=["Ovldverif.Props.C06"], streams=["table_static", "fn_static"], oracle="C06"),
     "C07": dict(modules=["Ovldverif.Props.C07"], streams=["table_static", "fn_static"], oracle="C07"),
     "C20": dict(modules=["Ovldverif.Props.C20"], streams=["table_rich", "fn"], oracle="C20"),
+    "C16": dict(modules=["Ovldverif.Props.C16"], streams=["graph"], oracle="C16"),
+    "C08": dict(modules=["Ovldverif.Props.C08"], streams=["graph", "graph_deep"], oracle="C08"),
 }
 
 STREAMS = {
@@ -102,6 +104,8 @@ STREAMS = {
     "fn": ("check_fn", "worker", lambda seed, n: (seed + 11, n, {"static_only": False}), "F"),
     "fn_static": ("check_fn", "worker", lambda seed, n: (seed + 13, n, {"static_only": True}), "F"),
     "fn_rich": ("check_fn", "worker", lambda seed, n: (seed + 17, n, {"static_only": False, "bodies": True}), "F"),
+    "graph": ("check_graph", "worker", lambda seed, n: (seed + 19, n, {}), "G"),
+    "graph_deep": ("check_graph", "worker", lambda seed, n: (seed + 23, n, {"nnodes": 6}), "G"),
 }
 
 
